@@ -99,6 +99,20 @@ func (c *Ctx) objectKeyBindingRules(r *Report, prefix string) {
 			} else {
 				detail = name + " is not the result of " + w[0] + "." + w[1]
 			}
+			// ... on every way to a successful return: an object left over from an earlier derivation (built only
+			// when the field is nil) would stay keyed with the earlier key
+			if good {
+				for _, rb := range gen.Blocks {
+					ret, isRet := rb.Instrs[len(rb.Instrs)-1].(*ssa.Return)
+					if !isRet || len(ret.Results) == 0 || !isNilConst(ret.Results[len(ret.Results)-1]) {
+						continue
+					}
+					if !st.Block().Dominates(rb) {
+						good = false
+						detail = fmt.Sprintf("%s is not assigned on every path to the successful return at %s: an object kept from an earlier derivation stays keyed with the earlier key", name, c.InstrPos(ret))
+					}
+				}
+			}
 			r.Check(good, rule, "IKESAKey."+name, c.InstrPos(st), detail, detail)
 		}
 	}
